@@ -34,6 +34,7 @@ SYMBOLS = OrderedDict(
         ("Beta", [("names", OrderedDict((("doc", "the names"), ("typ", "Optional[List[str]]"), ("default", A.NoneStr)))), ("mode", OrderedDict((("doc", "the mode"), ("typ", "Literal['x', 'y', 'z']"), ("default", "x"))))]),
         ("Gamma", [("flag", OrderedDict((("doc", "a flag"), ("typ", "bool"), ("default", False)))), ("ratio", OrderedDict((("doc", "a ratio"), ("typ", "float"), ("default", 0.5))))]),
         ("Delta", [("label", OrderedDict((("doc", "the label"), ("typ", "str"), ("default", "lbl"))))]),
+        ("Epsilon", [("size", OrderedDict((("doc", "the size"), ("typ", "Optional[int]"), ("default", A.NoneStr)))), ("tag", OrderedDict((("doc", "the tag"), ("typ", "str"), ("default", "t"))))]),
     )
 )
 INPUT_KINDS = ["class", "function", "argparse"]
@@ -66,11 +67,14 @@ def cases(tier, seed):
     names = list(SYMBOLS)
     inputs = []
     for kind in INPUT_KINDS:
-        for k in (1, 2, 3):
+        for k in (1, 2, 3) if tier == "quick" else (1, 2, 3, 4, 5):
             inputs.append(dict(kinds=[kind] * k, names=names[:k]))
     inputs.append(dict(kinds=["class", "function"], names=names[:2]))
     inputs.append(dict(kinds=["class", "class", "argparse"], names=names[:3]))
     inputs.append(dict(kinds=["function", "class"], names=names[:2]))
+    if tier != "quick":
+        inputs.append(dict(kinds=["class", "function", "argparse", "class", "function"], names=names[:5]))
+        inputs.append(dict(kinds=["argparse", "class", "class", "function"], names=names[:4]))
     for inp in inputs:
         homogeneous = len(set(inp["kinds"])) == 1
         for parse in (["explicit", "infer"] if homogeneous else ["infer"]):
@@ -80,7 +84,7 @@ def cases(tier, seed):
                         yield dict(kind="gen", input=inp, parse=parse, emit=emit, tpl=tpl, infer_imports=infer_imports, prepend=prepend, imports_file=imports_file, existing=None)
     # the input mapping given as a directory of modules (one symbol per file) and as `module.SYMBOL` naming a dict of live objects
     for input_as in ("dir", "module_symbol"):
-        for inp in (inputs[0], inputs[1], inputs[2], inputs[4], inputs[9] if len(inputs) > 9 else inputs[-1]):
+        for inp in ([i for i in inputs if len(i["names"]) <= 3 and (len(set(i["kinds"])) > 1 or i["kinds"][0] in ("class", "function"))] if tier == "quick" else inputs):
             if input_as == "module_symbol" and "argparse" in inp["kinds"]:
                 continue
             for emit in EMITS:
@@ -306,7 +310,7 @@ def worker_init(tier, seed):
 
 def describe(tier):
     return dict(
-        rule="inputs: 1-3 symbols of a 4-interface alphabet as classes, functions or argparse functions (homogeneous: --parse explicit and infer; 3 mixed-kind files: "
+        rule="inputs: 1-3 (thorough: 1-5) symbols of a 5-interface alphabet as classes, functions or argparse functions (homogeneous: --parse explicit and infer; 3 mixed-kind files: "
         "infer) x 8 emit kinds x 2 name templates x {imports off, inferred, --prepend + --imports-from-file, all three}; the non-clobbering guard for every "
         "emit kind with an existing output (with content / empty) x --prepend; a JSON-schema input file into 3 emit kinds; every run in a forked child; "
         "a case = one gen invocation",
